@@ -21,7 +21,7 @@ def items(cls, key, extra=None):
         ok2.update(extra)
     return {
         "none": None, "one": dict(ok1), "list": [dict(ok1), dict(ok2)], "empty-list": [],
-        "missing-key": {"other": "a.x", **(extra or {})}, "non-dict": "a.x",
+        "missing-key": {"other": "a.x", **(extra or {})}, "empty-item": {}, "non-dict": "a.x",
         "list-with-missing": [dict(ok1), {"zzz": "y", **(extra or {})}], "list-with-non-dict": [dict(ok1), "b.x"],
         "missing-content": {key: "a.x"},
     }[cls]
